@@ -338,6 +338,15 @@ class Sx:
                 ns[name] = SymBool(spec[1])
             elif spec[0] == "float":
                 ns[name] = SymFloat(spec[1])
+        import re as _re
+
+        def any_eq(pattern, value):
+            """some integer input whose name matches the regex equals value"""
+            hits = [ns[n] == value for n in list(ns) if isinstance(ns[n], SymInt)
+                    and _re.fullmatch(pattern, n)]
+            return core.s_or(*hits) if hits else False
+
+        ns["AnyEq"] = any_eq
         try:
             v = eval(expr, {"__builtins__": {}}, ns)  # noqa: S307 - file is committed, not input
         except NameError:
